@@ -3,6 +3,7 @@
 """
 
 from . import ber
+from . import EncodeError
 from . import restricted_utc_time_to_datetime
 from . import restricted_utc_time_from_datetime
 from . import restricted_generalized_time_to_datetime
@@ -21,7 +22,6 @@ from .ber import Null
 from .ber import ObjectIdentifier
 from .ber import Enumerated
 from .ber import Sequence
-from .ber import Set
 from .ber import Choice
 from .ber import Any
 from .ber import AnyDefinedBy
@@ -209,6 +209,71 @@ class SetOf(ArrayType):
             encoded_elements.append(encoded_element)
 
         return bytearray().join(sorted(encoded_elements))
+
+
+def tag_sort_key(encoded):
+    """Class and number of the tag at the beginning of given encoding.
+
+    """
+
+    number = encoded[0] & 0x1f
+
+    if number == 0x1f:
+        number = 0
+        offset = 1
+
+        while True:
+            number <<= 7
+            number |= (encoded[offset] & 0x7f)
+
+            if not encoded[offset] & 0x80:
+                break
+
+            offset += 1
+
+    return (encoded[0] & 0xc0, number)
+
+
+class Set(ber.Set):
+
+    def encode_content(self, data, values=None):
+        # The encodings of the members appear in ascending tag order
+        # (X.690 10.3).
+        encoded_members = []
+
+        for member in self.root_members:
+            self.encode_member_to_list(member, data, encoded_members)
+
+        if self.additions:
+            try:
+                for addition in self.additions:
+                    encoded_addition = []
+
+                    if isinstance(addition, list):
+                        for member in addition:
+                            self.encode_member_to_list(member,
+                                                       data,
+                                                       encoded_addition)
+                    else:
+                        self.encode_member_to_list(addition,
+                                                   data,
+                                                   encoded_addition)
+
+                    encoded_members.extend(encoded_addition)
+            except EncodeError as e:
+                # A missing addition ends the extension additions. An error
+                # in a present addition has a location and is not ignored.
+                if e.location:
+                    raise
+
+        return bytearray().join(sorted(encoded_members, key=tag_sort_key))
+
+    def encode_member_to_list(self, member, data, encoded_members):
+        encoded_member = bytearray()
+        self.encode_member(member, data, encoded_member)
+
+        if encoded_member:
+            encoded_members.append(encoded_member)
 
 
 class UTF8String(StringType):
